@@ -312,3 +312,17 @@ more text
         assert_eq!(deps.len(), 0);
     }
 }
+
+/// Wrappers exposing private helpers to `crate::verif` (feature "verif" only).
+#[cfg(feature = "verif")]
+pub mod verif_hooks {
+    pub fn extract_showincludes(output: Vec<u8>) -> (Vec<String>, Vec<u8>) {
+        super::extract_showincludes(output)
+    }
+    pub fn find_last_line(buf: &[u8]) -> &[u8] {
+        super::find_last_line(buf)
+    }
+    pub fn read_depfile(path: &std::path::Path) -> anyhow::Result<Vec<String>> {
+        super::read_depfile(path)
+    }
+}
